@@ -30,6 +30,8 @@ EXPLANATION = (
     "writer's current lap. The ring arithmetic (exact byte sequence across "
     "wraps for all sizes) is an inductive invariant over unbounded integers and "
     "is not decided.")
+EXPLANATION += (' R-LIN (linear-relations abstract interpretation of channel.c, Fourier-Motzkin entailment): cursor stores stay in [0, capacity] (inductive), non-empty slices are exactly [hold, head) or [hold, high) with the reader cursor recording end and lap, the overflow error only for an overrun reader, next-lap moves only at high, releases move the hold cursor by exactly the consumed bytes, registration/map/unmap address one valid slot, the mapped/unmapped state follows map/unmap, cursor_cmp is lexicographic, reader_min is the running minimum over all readers. R-CURSOR-COPY: lap and position are copied together.')
+
 
 
 def run(ctx, res):
